@@ -183,7 +183,7 @@ theorem shutdown_buf (env : Env) (st : PState) (b1 b2 : Bytes) :
   simp only [shutdown, closeConn]
 
 theorem shutdown_closed (env : Env) (c : Conn) : (shutdown env c).conn.closed = true := by
-  simp only [shutdown, closeConn]; split <;> rfl
+  rfl
 
 theorem feed_append (env : Env) (c : Conn) (a b : Bytes) :
     feed env c (a ++ b) = ((feed env (feed env c a).1 b).1, (feed env c a).2 ++ (feed env (feed env c a).1 b).2) := by
@@ -282,10 +282,13 @@ theorem processMessage_err_no_events (env : Env) (s : PState) (p : Bytes) (w : W
     simp only [hd] at h ⊢
     cases hp : s.peer with
     | none =>
-      simp only []
-      split
-      · rfl
-      · split <;> rfl
+      cases name with
+      | none => rfl
+      | some pn' =>
+        simp only []
+        split
+        · rfl
+        · split <;> rfl
     | some pn => rfl
   | msg m =>
     simp only [hd] at h ⊢
@@ -319,13 +322,57 @@ theorem processMessage_valid (env : Env) (s : PState) (p : Bytes) (m : Msg) (pn 
     first | rfl | (rw [show ({ m with src := ⟨s.alias, m.src.obj⟩ } : Msg) = rewriteSrc s.alias m from rfl, hat])
 
 
-/-- the peer's first message is a handshake of the right direction: identity learned, nothing delivered -/
-theorem processMessage_handshake (env : Env) (s : PState) (p : Bytes) (name : Option Name) (ver : Nat) (server : Bool)
-    (hp : s.peer = none) (hd : env.decode p = .handshake name ver server) (hdir : server = !s.incoming) :
-    processMessage env s p = ⟨{ s with peer := name, ver := some ver }, [], none⟩ := by
+/-- the peer's first message is a handshake of the right direction that names the peer: identity learned,
+    nothing delivered -/
+theorem processMessage_handshake (env : Env) (s : PState) (p : Bytes) (pn : Name) (ver : Nat) (server : Bool)
+    (hp : s.peer = none) (hd : env.decode p = .handshake (some pn) ver server) (hdir : server = !s.incoming) :
+    processMessage env s p = ⟨{ s with peer := some pn, ver := some ver }, [], none⟩ := by
   unfold processMessage
   simp only [hd, hp, hdir]
   cases s.incoming <;> rfl
+
+/-- a handshake accepted without exception always leaves the peer name set -/
+theorem processMessage_handshake_sets_peer (env : Env) (s : PState) (p : Bytes) (name : Option Name) (ver : Nat)
+    (server : Bool) (hp : s.peer = none) (hd : env.decode p = .handshake name ver server)
+    (hok : (processMessage env s p).err = none) : ∃ pn, (processMessage env s p).st.peer = some pn := by
+  unfold processMessage at hok ⊢
+  simp only [hd, hp] at hok ⊢
+  cases name with
+  | none => simp at hok
+  | some pn =>
+    refine ⟨pn, ?_⟩
+    simp only []
+    split
+    · rfl
+    · split <;> rfl
+
+/-- once the peer is known it stays known, whatever arrives -/
+theorem processMessage_peer_some (env : Env) (s : PState) (p : Bytes) (pn : Name) (hp : s.peer = some pn) :
+    (processMessage env s p).st.peer = some pn := by
+  unfold processMessage
+  cases env.decode p with
+  | undecodable => exact hp
+  | notMessage => exact hp
+  | handshake name ver server => simp only [hp]
+  | msg m =>
+    simp only [hp]
+    split
+    · exact hp
+    · split
+      · exact hp
+      · split <;> (dsimp only; split <;> first | rfl | exact hp)
+
+theorem procAll_peer_some (env : Env) (ps : List Bytes) : ∀ (s : PState) (pn : Name), s.peer = some pn →
+    (procAll env s ps).st.peer = some pn := by
+  induction ps with
+  | nil => intro s pn hp; exact hp
+  | cons p ps ih =>
+    intro s pn hp
+    simp only [procAll]
+    have h := processMessage_peer_some env s p pn hp
+    cases (processMessage env s p).err with
+    | some w => exact h
+    | none => exact ih _ pn h
 
 /-- a run of well-addressed messages after the handshake: no exception, one `deliver_message` per message,
     in order, each the decoded payload with only the source context rewritten -/
@@ -392,14 +439,19 @@ theorem processMessage_missing_handshake (env : Env) (s : PState) (p : Bytes) (m
     processMessage env s p = ⟨s, [], some .expectedHandshake⟩ := by
   unfold processMessage; simp only [hd, hp]
 
-theorem processMessage_wrong_direction (env : Env) (s : PState) (p : Bytes) (name : Option Name) (ver : Nat)
-    (server : Bool) (hp : s.peer = none) (hd : env.decode p = .handshake name ver server)
+theorem processMessage_wrong_direction (env : Env) (s : PState) (p : Bytes) (pn : Name) (ver : Nat)
+    (server : Bool) (hp : s.peer = none) (hd : env.decode p = .handshake (some pn) ver server)
     (hdir : server = s.incoming) :
     (processMessage env s p).evs = [] ∧
     (processMessage env s p).err = some (if s.incoming then .serverHsFromClient else .clientHsAsClient) := by
   unfold processMessage
   simp only [hd, hp, hdir]
   cases s.incoming <;> exact ⟨rfl, rfl⟩
+
+theorem processMessage_nameless_handshake (env : Env) (s : PState) (p : Bytes) (ver : Nat) (server : Bool)
+    (hp : s.peer = none) (hd : env.decode p = .handshake none ver server) :
+    processMessage env s p = ⟨s, [], some .badHandshakeName⟩ := by
+  unfold processMessage; simp only [hd, hp]
 
 theorem processMessage_foreign_destination (env : Env) (s : PState) (p : Bytes) (m : Msg) (pn : Name)
     (hp : s.peer = some pn) (hd : env.decode p = .msg m) (hdst : m.dst.ctx ≠ env.ctxName) :
@@ -414,30 +466,16 @@ theorem processMessage_foreign_source (env : Env) (s : PState) (p : Bytes) (m : 
 
 /-! ### closing -/
 
-/-- the event `_clear_pending_requests` leaves for one table entry -/
-def clearEv (env : Env) (peer : Option Name) (e : Nat × Addr × Addr) : Ev :=
-  (deliverLocal env (errReplyFor peer e)).ev (errReplyFor peer e)
-
-/-- no registered handler answers an error reply with an exception other than QMI_MessageDeliveryException
-    (the documented contract of `QMI_MessageHandler.handle_message`) -/
-def HandlersKeepContract (env : Env) : Prop :=
-  ∀ m : Msg, m.kind = .errReply → deliverLocal env m ≠ .handled .crash
-
-theorem clearPending_ok (env : Env) (peer : Option Name) (h : HandlersKeepContract env)
-    (l : List (Nat × Addr × Addr)) :
-    clearPending env peer l = (l.map (clearEv env peer), false) := by
+theorem clearPending_eq_map (env : Env) (peer : Option Name) (l : List (Nat × Addr × Addr)) :
+    clearPending env peer l = l.map (clearEv env peer) := by
   induction l with
   | nil => rfl
-  | cons e rest ih =>
-    have hne := h (errReplyFor peer e) rfl
-    simp only [clearPending, ih, List.map_cons, clearEv]
-    all_goals (split <;> first | (rename_i hc; exact absurd hc hne) | rfl)
+  | cons e rest ih => simp only [clearPending, ih, List.map_cons]
 
-theorem closeConn_ok (env : Env) (c : Conn) (h : HandlersKeepContract env) :
+theorem closeConn_eq (env : Env) (c : Conn) :
     closeConn env c = ⟨{ st := { c.st with pending := [] }, buf := [], closed := true },
-                       c.st.pending.map (clearEv env c.st.peer), false⟩ := by
-  simp only [closeConn, clearPending_ok env _ h]
-  rfl
+                       c.st.pending.map (clearEv env c.st.peer)⟩ := by
+  simp only [closeConn, clearPending_eq_map]
 
 /-! ### the peer map and the connection table -/
 
@@ -507,10 +545,13 @@ theorem processMessage_alias (env : Env) (s : PState) (p : Bytes) :
   | handshake name ver server =>
     cases s.peer with
     | none =>
-      simp only []
-      split
-      · exact ⟨rfl, rfl⟩
-      · split <;> exact ⟨rfl, rfl⟩
+      cases name with
+      | none => exact ⟨rfl, rfl⟩
+      | some pn' =>
+        simp only []
+        split
+        · exact ⟨rfl, rfl⟩
+        · split <;> exact ⟨rfl, rfl⟩
     | some pn => exact ⟨rfl, rfl⟩
   | msg m =>
     cases s.peer with
@@ -546,10 +587,13 @@ theorem processMessage_err_pending (env : Env) (s : PState) (p : Bytes) (w : Why
     simp only [hd] at h ⊢
     cases hp : s.peer with
     | none =>
-      simp only []
-      split
-      · rfl
-      · split <;> rfl
+      cases name with
+      | none => rfl
+      | some pn' =>
+        simp only []
+        split
+        · rfl
+        · split <;> rfl
     | some pn => rfl
   | msg m =>
     simp only [hd] at h ⊢
@@ -596,42 +640,19 @@ theorem consume_offending (env : Env) (h64 : env.maxSize < 2 ^ 64) (s : PState) 
       (processMessage_alias env s p).1⟩
     rw [consume_frame env s p rest hsz (by omega), herr, processMessage_err_no_events env s p w herr]
 
-/-- everything `close()` does to the local side: one `deliver_message` per pending entry (+ a marker if a
-    handler's exception got out) -/
-def closeEvs (env : Env) (st : PState) : List Ev :=
-  (closeConn env { st, buf := [], closed := false }).evs ++
-    escapedEv (closeConn env { st, buf := [], closed := false }).escaped
+/-- everything `close()` does to the local side: exactly one `deliver_message(error reply)` per pending entry -/
+def closeEvs (env : Env) (st : PState) : List Ev := st.pending.map (clearEv env st.peer)
 
-theorem clearPending_attempts (env : Env) (peer : Option Name) (l : List (Nat × Addr × Addr)) :
-    ∀ m ∈ attempts (clearPending env peer l).1, ∃ e ∈ l, m = errReplyFor peer e := by
+theorem attempt_clearEv (env : Env) (peer : Option Name) (e : Nat × Addr × Addr) :
+    Ev.attempt (clearEv env peer e) = some (errReplyFor peer e) := by
+  unfold clearEv; cases deliverLocal env (errReplyFor peer e) <;> rfl
+
+theorem attempts_clearEv (env : Env) (peer : Option Name) (l : List (Nat × Addr × Addr)) :
+    attempts (l.map (clearEv env peer)) = l.map (errReplyFor peer) := by
   induction l with
-  | nil => intro m hm; simp [clearPending, attempts] at hm
+  | nil => rfl
   | cons e rest ih =>
-    intro m hm
-    simp only [clearPending] at hm
-    split at hm
-    · simp only [attempts, List.filterMap_cons, Ev.attempt, List.filterMap_nil, List.mem_singleton] at hm
-      exact ⟨e, List.mem_cons_self, hm⟩
-    · simp only [attempts, List.filterMap_cons] at hm
-      have hat : Ev.attempt ((deliverLocal env (errReplyFor peer e)).ev (errReplyFor peer e)) = some (errReplyFor peer e) := by
-        cases deliverLocal env (errReplyFor peer e) <;> rfl
-      rw [hat] at hm
-      simp only [List.mem_cons] at hm
-      rcases hm with rfl | hm
-      · exact ⟨e, List.mem_cons_self, rfl⟩
-      · obtain ⟨e', he', rfl⟩ := ih m hm
-        exact ⟨e', List.mem_cons_of_mem _ he', rfl⟩
-
-/-- whatever reaches a local handler while a connection is being closed is an error reply made from the
-    pending table — never anything the peer sent -/
-theorem closeEvs_attempts (env : Env) (st : PState) :
-    ∀ m ∈ attempts (closeEvs env st), ∃ e ∈ st.pending, m = errReplyFor st.peer e := by
-  intro m hm
-  apply clearPending_attempts env st.peer st.pending m
-  unfold closeEvs closeConn escapedEv at hm
-  simp only [attempts, List.filterMap_append] at hm ⊢
-  split at hm
-  · simpa [Ev.attempt] using hm
-  · simpa [Ev.attempt] using hm
+    simp only [attempts, List.map_cons, List.filterMap_cons, attempt_clearEv] at ih ⊢
+    rw [ih]
 
 end QmiModel.Frame
